@@ -65,7 +65,7 @@ Fixpoint nest_slice (d : nat) (t : gty) : bool :=
 Definition v_ok (ft : str -> option gty) (v : validator) : bool :=
   match v with
   | VRequired _ => true
-  | VAnyOf _ => false            (* composites are outside this theorem (gen answers GUnmod for them) *)
+  | VAnyOf _ => true             (* its branch types are checked by [wf_ty] itself *)
   | VNullType fn _ d => match ft fn with Some t => nest_null d t | None => false end
   | VDefault fn _ ty dv =>
       match fn with
@@ -109,11 +109,19 @@ Fixpoint wf_ty (t : gty) : bool :=
       (fix go (fs : list field) : bool := match fs with [] => true | mkField _ _ _ ty _ _ :: r => wf_ty ty && go r end) fs &&
       names_ok fs &&
       match name, plan with
-      | _ :: _, Some vs => forallb (v_ok (ft_struct fs)) vs && addl_ok fs vs
+      | _ :: _, Some vs =>
+          forallb (v_ok (ft_struct fs)) vs && addl_ok fs vs &&
+          (* the branch types of an anyOf validator are decoded by the method: they are well formed themselves *)
+          (fix gov (vs : list validator) : bool :=
+             match vs with
+             | [] => true
+             | VAnyOf bs :: r => (fix gob (bs : list gty) : bool := match bs with [] => true | b :: r' => wf_ty b && gob r' end) bs && gov r
+             | _ :: r => gov r
+             end) vs
       | _, _ => true
       end
   | TNamed _ u plan =>
-      wf_ty u && match plan with Some vs => forallb (v_ok (ft_named u)) vs | None => true end
+      wf_ty u && match plan with Some vs => forallb (v_ok (ft_named u)) vs && negb (existsb (fun v => match v with VAnyOf _ => true | _ => false end) vs) | None => true end
   | TEnum _ c _ _ => wf_ty c
   | TRef d => match lookup d env with Some _ => true | None => false end
   | _ => true
@@ -127,6 +135,25 @@ Proof.
   induction fs as [|[n j o ty d a] r IH]; cbn; [tauto|]. intros H [Hf|Hin].
   - subst. apply andb_true_iff in H. tauto.
   - apply andb_true_iff in H. destruct H. auto.
+Qed.
+
+Definition branches_wf : list validator -> bool :=
+  fix gov (vs : list validator) : bool :=
+    match vs with
+    | [] => true
+    | VAnyOf bs :: r => (fix gob (bs : list gty) : bool := match bs with [] => true | b :: r' => wf_ty b && gob r' end) bs && gov r
+    | _ :: r => gov r
+    end.
+
+Lemma branches_wf_In vs : branches_wf vs = true -> forall bs bt, In (VAnyOf bs) vs -> In bt bs -> wf_ty bt = true.
+Proof.
+  induction vs as [|v r IH]; intros H bs bt Hin Hbt; [contradiction|].
+  destruct Hin as [->|Hin].
+  - cbn [branches_wf] in H. apply andb_true_iff in H. destruct H as [H _]. clear IH.
+    induction bs as [|b0 br IHb]; [contradiction|]. apply andb_true_iff in H. destruct H as [H1 H2].
+    destruct Hbt as [->|Hbt]; [exact H1|exact (IHb H2 Hbt)].
+  - apply (IH) with (bs := bs); [|exact Hin|exact Hbt]. destruct v; cbn [branches_wf] in H; try exact H.
+    apply andb_true_iff in H. tauto.
 Qed.
 
 Definition env_wf : Prop := forall d u, lookup d env = Some u -> wf_ty u = true.
@@ -269,6 +296,8 @@ Proof.
         try (split; [congruence|]; intros st' H; inversion H; subst; first [exact Hs | rewrite vshape_struct; exact Hs]);
         cbn in Hxs; destruct x; try discriminate; cbn;
         destruct (accept_numeric _ _ _ _); split; try congruence; intros st' H; inversion H; subst; first [exact Hs | rewrite vshape_struct; exact Hs].
+  - (* anyOf: a before-validator *)
+    cbn. split; [congruence|intros st' H; inversion H; subst; first [exact Hs | rewrite vshape_struct; exact Hs]].
 Qed.
 
 Lemma after_step_named_safe u raw st v :
@@ -304,6 +333,7 @@ Proof.
         try (split; [congruence|]; intros st' H; inversion H; reflexivity);
         cbn in Hs; destruct st; try discriminate; cbn;
         destruct (accept_numeric _ _ _ _); split; try congruence; try (intros st' H; inversion H; reflexivity).
+  - cbn. split; [congruence|intros st' H; inversion H; reflexivity].
 Qed.
 
 (* ---------- the after-validators as a whole ---------- *)
@@ -376,16 +406,29 @@ Proof.
 Qed.
 
 (* ---------- before-validators: only `required`, which needs the raw map ---------- *)
-Lemma run_before_safe decf ft vs raw j :
-  forallb (v_ok ft) vs = true -> raw <> None -> run_before decf vs raw j <> Crash.
+Definition branches_safe (decf : gty -> json -> outcome gval) (vs : list validator) : Prop :=
+  forall bs bt, In (VAnyOf bs) vs -> In bt bs -> forall x, decf bt x <> Crash.
+
+Lemma anyof_no_crash decf raw j bs : (forall bt, In bt bs -> decf bt j <> Crash) -> before_step decf raw j (VAnyOf bs) <> Crash.
 Proof.
-  intros Hv Hraw. unfold run_before.
+  intros H. cbn [before_step].
+  rewrite (existsb_map_false (fun bt => decf bt j) (fun r => match r with Crash => true | _ => false end)).
+  2: { intros x Hx. pose proof (H x Hx). destruct (decf x j); try reflexivity. congruence. }
+  destruct (existsb _ _); [congruence|]. destruct (existsb _ _); congruence.
+Qed.
+
+Lemma run_before_safe decf ft vs raw j :
+  forallb (v_ok ft) vs = true -> branches_safe decf vs -> raw <> None -> run_before decf vs raw j <> Crash.
+Proof.
+  intros Hv Hbr Hraw. unfold run_before.
   assert (G : forall o : outcome unit, o <> Crash -> fold_left (fun acc v => obind acc (fun _ => before_step decf raw j v)) vs o <> Crash).
   { induction vs as [|v r IH]; intros o Ho; cbn [fold_left]; [exact Ho|].
-    cbn [forallb] in Hv. apply andb_true_iff in Hv. destruct Hv as [Hv1 Hvr]. apply IH; [exact Hvr|].
-    destruct o; cbn; try congruence.
-    destruct v; cbn [v_ok] in Hv1; try discriminate; cbn; try congruence.
-    destruct raw as [[kv|]|]; try congruence. destruct (lookup jname kv); congruence. }
+    cbn [forallb] in Hv. apply andb_true_iff in Hv. destruct Hv as [Hv1 Hvr].
+    apply IH; [exact Hvr|intros bs bt Hin; apply (Hbr bs bt); right; exact Hin|].
+    destruct o; cbn [obind]; try congruence.
+    destruct v; cbn [v_ok] in Hv1; try discriminate; try (cbn; congruence).
+    - cbn. destruct raw as [[kv|]|]; try congruence. destruct (lookup jname kv); congruence.
+    - apply anyof_no_crash. intros bt Hbt. apply (Hbr branches bt); [left; reflexivity|exact Hbt]. }
   apply G. congruence.
 Qed.
 
@@ -466,13 +509,13 @@ Lemma obind_safe {A B} (o : outcome A) (g : A -> outcome B) :
 Proof. destruct o; cbn; intros H1 H2; try congruence. apply H2. reflexivity. Qed.
 
 Lemma struct_method_safe decf c name fs vs j :
-  names_ok fs = true -> forallb (v_ok (ft_struct fs)) vs = true -> addl_ok fs vs = true ->
+  names_ok fs = true -> forallb (v_ok (ft_struct fs)) vs = true -> addl_ok fs vs = true -> branches_safe decf vs ->
   (forall fl, In fl fs -> dec_good decf (f_ty fl)) ->
   run_method decf zero (default_val dv_fuel) (Some fs) (TStruct (c :: name) fs (Some vs)) vs j <> Crash /\
   forall st, run_method decf zero (default_val dv_fuel) (Some fs) (TStruct (c :: name) fs (Some vs)) vs j = Ok st ->
              vshape (TStruct (c :: name) fs (Some vs)) st = true.
 Proof.
-  intros Hn Hv Ha Hg. unfold run_method.
+  intros Hn Hv Ha Hbr Hg. unfold run_method.
   destruct (existsb v_before vs || existsb v_raw_after vs) eqn:ER.
   - (* the raw map is decoded *)
     assert (Hcore : forall raw, raw <> None ->
@@ -480,7 +523,7 @@ Proof.
        forall st, obind (run_before decf vs raw j) (fun _ => obind (plain_fields decf zero fs j) (fun st => obind (run_after (default_val dv_fuel) vs raw st) (fun st0 => addl_block fs raw st0))) = Ok st ->
                   vshape (TStruct (c :: name) fs (Some vs)) st = true).
     { intros raw Hraw.
-      pose proof (run_before_safe decf (ft_struct fs) vs raw j Hv Hraw) as Hb.
+      pose proof (run_before_safe decf (ft_struct fs) vs raw j Hv Hbr Hraw) as Hb.
       destruct (run_before decf vs raw j); cbn [obind]; try (split; [congruence|discriminate]).
       destruct (plain_fields_safe decf (c :: name) fs (Some vs) j Hg) as [Hpc Hps].
       destruct (plain_fields decf zero fs j) as [st| | |]; cbn [obind]; try (split; [congruence|discriminate]).
@@ -505,11 +548,11 @@ Proof.
 Qed.
 
 Lemma named_method_safe decf u vs j :
-  forallb (v_ok (ft_named u)) vs = true -> dec_good decf u ->
+  forallb (v_ok (ft_named u)) vs = true -> branches_safe decf vs -> dec_good decf u ->
   run_method decf zero (default_val dv_fuel) None u vs j <> Crash /\
   forall st, run_method decf zero (default_val dv_fuel) None u vs j = Ok st -> vshape u st = true.
 Proof.
-  intros Hv Hg. unfold run_method.
+  intros Hv Hbr Hg. unfold run_method.
   assert (Hcore : forall raw, run_before decf vs raw j <> Crash ->
      obind (run_before decf vs raw j) (fun _ => obind (decf u j) (fun st => obind (run_after (default_val dv_fuel) vs raw st) (fun st0 => Ok st0))) <> Crash /\
      forall st, obind (run_before decf vs raw j) (fun _ => obind (decf u j) (fun st => obind (run_after (default_val dv_fuel) vs raw st) (fun st0 => Ok st0))) = Ok st -> vshape u st = true).
@@ -579,12 +622,18 @@ Proof.
       destruct name as [|c name].
       * apply (plain_fields_safe (dec f) [] fs plan x Hg).
       * destruct plan as [vs|]; [|apply (plain_fields_safe (dec f) (c :: name) fs None x Hg)].
-        apply andb_true_iff in Hplan. destruct Hplan as [Hv Ha].
-        apply struct_method_safe; assumption.
+        apply andb_true_iff in Hplan. destruct Hplan as [Hplan Hbw]. apply andb_true_iff in Hplan. destruct Hplan as [Hv Ha].
+        apply struct_method_safe; try assumption.
+        intros bs bt Hin Hbt y. apply (IH bt (branches_wf_In vs Hbw bs bt Hin Hbt) y).
     + (* named *)
       cbn [wf_ty] in Hw. apply andb_true_iff in Hw. destruct Hw as [Hu Hplan].
       destruct plan as [vs|]; [|apply (IH t Hu x)].
-      destruct (named_method_safe (dec f) t vs x Hplan (fun y => IH t Hu y)) as [H1 H2].
+      apply andb_true_iff in Hplan. destruct Hplan as [Hplan Hno].
+      assert (Hbr : branches_safe (dec f) vs).
+      { intros bs bt Hin _ y. exfalso. apply negb_true_iff in Hno.
+        assert (existsb (fun v => match v with VAnyOf _ => true | _ => false end) vs = true) by (apply existsb_exists; exists (VAnyOf bs); split; [exact Hin|reflexivity]).
+        congruence. }
+      destruct (named_method_safe (dec f) t vs x Hplan Hbr (fun y => IH t Hu y)) as [H1 H2].
       split; [exact H1|]. intros v Hv. cbn [vshape]. apply H2. exact Hv.
     + (* enum *)
       cbn [wf_ty] in Hw. destruct (IH t Hw x) as [Hc Hs].
